@@ -1,4 +1,5 @@
 """C10 -- compile-time evaluation agrees with run time (structural clauses)."""
+import json
 import re
 
 from rules import hirq, mirq, visit
@@ -309,6 +310,29 @@ def r8_array_len(run, F):
                "the array type is the pointee type of the storage address: %s" % sorted(ca))
 
 
+def r9_named_length_guard(run, F):
+    """A named length is only read from a constant that LLVM folded to an integer: folding can also give undef or poison
+    (`const N: usize = 1 / 0;`), on which LLVMConstIntGetZExtValue is undefined (it crashed the compiler)."""
+    b = F.body("alpha::generator::Generator::get_named_length")
+    cfg = mirq.CFG(b)
+    dom = cfg.dom()
+    reads = [u for u, t in cfg.calls() if (mirq.call_target(t) or "").endswith("LLVMConstIntGetZExtValue")]
+    guards = [u for u, t in cfg.calls() if (mirq.call_target(t) or "").endswith("LLVMIsAConstantInt")]
+    run.require(len(reads) == 1, "get_named_length: LLVMConstIntGetZExtValue not found")
+    ok = bool(guards) and all(g in dom[reads[0]] for g in guards)
+    # the guarded value is the value read
+    du = mirq.DefUse(cfg)
+    same = False
+    if guards:
+        a = cfg.term(guards[0])["args"][0]
+        r = cfg.term(reads[0])["args"][0]
+        sa = set(json.dumps(x, sort_keys=True, default=str) for x in du.sources(a))
+        sr = set(json.dumps(x, sort_keys=True, default=str) for x in du.sources(r))
+        same = bool(sa & sr)
+    run.ob("R9-NAMED-LENGTH-IS-INT", "get_named_length", ok and same, F.where(b),
+           "LLVMConstIntGetZExtValue(c) must be dominated by a LLVMIsAConstantInt(c) test on the same value (guard calls %s, same value %s)" % (guards, same))
+
+
 def check(run):
     F = run.facts("B")
     r1_sizes(run, F)
@@ -319,3 +343,4 @@ def check(run):
     r6_sizeof(run, F)
     r7_constness_visit(run, F)
     r8_array_len(run, F)
+    r9_named_length_guard(run, F)
